@@ -18,6 +18,18 @@ extern "C" const char* __asan_default_options() { return "symbolize=0"; }
 
 namespace
 {
+// the declaration call; returns the object (base pointer plus the typed pointer of its kind)
+struct declared
+{
+    no::option* o = nullptr;
+    no::multi_option* m = nullptr;
+    no::toggle* t = nullptr;
+    no::base* b() const
+    {
+        return o ? static_cast<no::base*>(o) : m ? static_cast<no::base*>(m) : static_cast<no::base*>(t);
+    }
+};
+
 struct objinfo
 {
     no::base* b;
@@ -29,6 +41,9 @@ struct ctx
     std::unique_ptr<no::parser> p;
     std::map<const void*, int> ids, gids;
     std::vector<objinfo> objs; // index = id - 1
+    // references the "program" keeps: every group& and option& a call handed out, by name
+    std::map<std::string, no::group*> held_groups;
+    std::map<std::string, declared> held_objs;
     int id_of(no::base* b, char kind, const std::string& name)
     {
         auto it = ids.find(static_cast<const void*>(b));
@@ -53,18 +68,6 @@ std::string other(const std::exception& e)
     return std::string("OTHER(") + typeid(e).name() + ")";
 }
 
-// the declaration call; returns the object (base pointer plus the typed pointer of its kind)
-struct declared
-{
-    no::option* o = nullptr;
-    no::multi_option* m = nullptr;
-    no::toggle* t = nullptr;
-    no::base* b() const
-    {
-        return o ? static_cast<no::base*>(o) : m ? static_cast<no::base*>(m) : static_cast<no::base*>(t);
-    }
-};
-
 declared declare(ctx& c, const std::string& g, char k, const std::string& n)
 {
     declared d;
@@ -77,6 +80,7 @@ declared declare(ctx& c, const std::string& g, char k, const std::string& n)
     else
     {
         no::group& grp = c.p->group(vh::unhex(g));
+        c.held_groups[vh::unhex(g)] = &grp;
         if (k == 'o') d.o = &grp.option(n);
         else if (k == 'm') d.m = &grp.multi_option(n);
         else d.t = &grp.toggle(n);
@@ -153,6 +157,32 @@ std::vector<std::string> dedup(const std::vector<std::string>& l)
     return r;
 }
 
+std::string gkey(const std::string& g) { return g == "*" ? std::string("__default") : vh::unhex(g); }
+std::string okey(const std::string& g, char k, const std::string& n) { return gkey(g) + std::string(1, '\0') + k + n; }
+
+// the setter part of an operation on the object d (id already assigned): "OK<id>" / "DEVS<id>" / ...
+std::string set_on(const declared& d, int id, const std::string& f, const std::string& arg)
+{
+    try
+    {
+        bool same = true;
+        if (f == "d")
+        {
+            if (d.o) same = &d.o->default_value("d") == d.o;
+            else if (d.m) same = &d.m->default_value({ "d" }) == d.m;
+            else same = &d.t->default_value(true) == d.t;
+        }
+        else if (d.o) same = apply_setter(d.o, f, arg);
+        else if (d.m) same = apply_setter(d.m, f, arg);
+        else same = apply_setter(d.t, f, arg);
+        if (!same) return "OTHER(setter-returned-another-object)";
+        return "OK" + std::to_string(id);
+    }
+    catch (const no::parser_error&) { return "DEVS" + std::to_string(id); }
+    catch (const no::parsing_error&) { return "USER"; }
+    catch (const std::exception& e) { return other(e); }
+}
+
 std::string run_case(const std::vector<std::string>& w)
 {
     ctx c;
@@ -161,13 +191,15 @@ std::string run_case(const std::vector<std::string>& w)
     for (auto& word : w)
     {
         auto f = vh::split_on(word, ':');
-        if ((f[0] == "D" || f[0] == "S") && f.size() >= 4) names.push_back(f[3]);
-        if (f[0] == "S" && f.size() == 6 && f[4] == "s" && f[5].size() == 2) letters.push_back(f[5]);
+        bool setter = f[0] == "S" || f[0] == "HS" || f[0] == "HD";
+        if ((f[0] == "D" || setter) && f.size() >= 4) names.push_back(f[3]);
+        if (setter && f.size() == 6 && f[4] == "s" && f[5].size() == 2) letters.push_back(f[5]);
         // environment variables named by the case must not be set: parse() would read them
-        if (f[0] == "S" && f.size() == 6 && f[4] == "e" && f[5] != "-") unsetenv(vh::unhex(f[5]).c_str());
+        if (setter && f.size() == 6 && f[4] == "e" && f[5] != "-") unsetenv(vh::unhex(f[5]).c_str());
     }
     names = dedup(names);
     letters = dedup(letters);
+    c.held_groups["__default"] = &c.p->group(); // the reference to the default group is taken before anything else
 
     std::string out;
     for (auto& word : w)
@@ -176,7 +208,12 @@ std::string run_case(const std::vector<std::string>& w)
         std::string r;
         if (f[0] == "G" && f.size() == 2)
         {
-            try { r = "G" + std::to_string(c.gid_of(&c.p->group(vh::unhex(f[1])))); }
+            try
+            {
+                no::group* g = &c.p->group(vh::unhex(f[1]));
+                c.held_groups[vh::unhex(f[1])] = g;
+                r = "G" + std::to_string(c.gid_of(g));
+            }
             catch (const no::parser_error&) { r = "DEV"; }
             catch (const no::parsing_error&) { r = "USER"; }
             catch (const std::exception& e) { r = other(e); }
@@ -194,29 +231,51 @@ std::string run_case(const std::vector<std::string>& w)
             if (ok)
             {
                 int id = c.id_of(d.b(), k, n);
+                c.held_objs[okey(f[1], k, n)] = d;
                 r = "OK" + std::to_string(id);
-                if (f[0] == "S")
+                if (f[0] == "S") r = set_on(d, id, f[4], f.size() == 6 ? vh::unhex(f[5]) : std::string());
+            }
+        }
+        else if (f[0] == "HD" && f.size() >= 4)
+        {
+            // declaration (and optional setter) through a group& handed out earlier; parser::group() is not called
+            char k = f[2][0];
+            std::string n = vh::unhex(f[3]);
+            auto h = c.held_groups.find(gkey(f[1]));
+            if (h == c.held_groups.end())
+                r = "NOH";
+            else
+            {
+                declared d;
+                bool ok = false;
+                try
                 {
-                    std::string arg = f.size() == 6 ? vh::unhex(f[5]) : std::string();
-                    try
-                    {
-                        bool same = true;
-                        if (f[4] == "d")
-                        {
-                            if (d.o) same = &d.o->default_value("d") == d.o;
-                            else if (d.m) same = &d.m->default_value({ "d" }) == d.m;
-                            else same = &d.t->default_value(true) == d.t;
-                        }
-                        else if (d.o) same = apply_setter(d.o, f[4], arg);
-                        else if (d.m) same = apply_setter(d.m, f[4], arg);
-                        else same = apply_setter(d.t, f[4], arg);
-                        if (!same) r = "OTHER(setter-returned-another-object)";
-                    }
-                    catch (const no::parser_error&) { r = "DEVS" + std::to_string(id); }
-                    catch (const no::parsing_error&) { r = "USER"; }
-                    catch (const std::exception& e) { r = other(e); }
+                    if (k == 'o') d.o = &h->second->option(n);
+                    else if (k == 'm') d.m = &h->second->multi_option(n);
+                    else d.t = &h->second->toggle(n);
+                    ok = true;
+                }
+                catch (const no::parser_error&) { r = "DEV"; }
+                catch (const no::parsing_error&) { r = "USER"; }
+                catch (const std::exception& e) { r = other(e); }
+                if (ok)
+                {
+                    int id = c.id_of(d.b(), k, n);
+                    c.held_objs[okey(f[1], k, n)] = d;
+                    r = "OK" + std::to_string(id);
+                    if (f.size() >= 5) r = set_on(d, id, f[4], f.size() == 6 ? vh::unhex(f[5]) : std::string());
                 }
             }
+        }
+        else if (f[0] == "HS" && f.size() >= 5)
+        {
+            // setter through an option&/multi_option&/toggle& handed out earlier
+            auto h = c.held_objs.find(okey(f[1], f[2][0], vh::unhex(f[3])));
+            if (h == c.held_objs.end())
+                r = "NOH";
+            else
+                r = set_on(h->second, c.id_of(h->second.b(), f[2][0], vh::unhex(f[3])), f[4],
+                           f.size() == 6 ? vh::unhex(f[5]) : std::string());
         }
         else if (f[0] == "MC" || f[0] == "MA" || f[0] == "MS")
         {
